@@ -371,6 +371,65 @@ theorem rtData_facts (maps : IdMaps) (d d' : DataM) (h : rtData maps d = some d'
     refine ⟨rfl, ⟨o', rfl, mapCExpr_kept _ _ _ ho'⟩, ?_⟩
     cases mem <;> simp [dataFlag]
 
+theorem assoc_append_cases (a b : List (Nat × Nat)) (k x : Nat) (h : assoc (a ++ b) k = some x) :
+    assoc a k = some x ∨ (assoc a k = none ∧ assoc b k = some x) := by
+  induction a with
+  | nil => right; exact ⟨rfl, by simpa using h⟩
+  | cons p r ih =>
+    obtain ⟨p1, p2⟩ := p
+    simp only [List.cons_append, assoc] at h ⊢
+    split
+    · rename_i hp; simp only [hp, if_true] at h; left; exact h
+    · rename_i hp; simp only [hp, if_false] at h; exact ih h
+
+theorem assoc_map_id (l : List Nat) (k x : Nat) (h : assoc (l.map fun i => (i, i)) k = some x) :
+    x = k ∧ k ∈ l := by
+  induction l with
+  | nil => simp [assoc] at h
+  | cons a r ih =>
+    simp only [List.map_cons, assoc] at h
+    split at h
+    · rename_i ha; injection h with h; subst h; subst ha; exact ⟨rfl, by simp⟩
+    · obtain ⟨h1, h2⟩ := ih h; exact ⟨h1, by simp [h2]⟩
+
+theorem assoc_zipIdx_base {α : Type} (key : α → Nat) (base : Nat) : ∀ (l : List α) (start k x : Nat),
+    assoc ((l.zipIdx start).map fun p => (key p.1, base + p.2)) k = some x →
+    ∃ j, x = base + j ∧ start ≤ j ∧ (l[j - start]?).map key = some k
+  | [], _, _, _, h => by simp [assoc] at h
+  | a :: r, start, k, x, h => by
+    simp only [List.zipIdx_cons, List.map_cons, assoc] at h
+    split at h
+    · rename_i hk
+      injection h with h
+      exact ⟨start, h.symm, Nat.le_refl _, by simp [hk]⟩
+    · obtain ⟨j, h1, h2, h3⟩ := assoc_zipIdx_base key base r (start + 1) k x h
+      refine ⟨j, h1, by omega, ?_⟩
+      have : j - start = (j - (start + 1)) + 1 := by omega
+      rw [this]; simpa using h3
+
+/-- the function renaming of the round trip is injective: two function ids never share an index -/
+theorem funcMap_injective {α : Type} (key : α → Nat) (nif : Nat) (fs : List α) (a b x : Nat)
+    (ha : assoc ((List.range nif).map (fun i => (i, i)) ++ fs.zipIdx.map (fun p => (key p.1, nif + p.2))) a = some x)
+    (hb : assoc ((List.range nif).map (fun i => (i, i)) ++ fs.zipIdx.map (fun p => (key p.1, nif + p.2))) b = some x) :
+    a = b := by
+  rcases assoc_append_cases _ _ _ _ ha with ha | ⟨_, ha⟩ <;> rcases assoc_append_cases _ _ _ _ hb with hb | ⟨_, hb⟩
+  · obtain ⟨h1, _⟩ := assoc_map_id _ _ _ ha
+    obtain ⟨h2, _⟩ := assoc_map_id _ _ _ hb
+    omega
+  · obtain ⟨h1, h1'⟩ := assoc_map_id _ _ _ ha
+    obtain ⟨j, h2, _, _⟩ := assoc_zipIdx_base key nif fs 0 b x hb
+    have := List.mem_range.1 h1'
+    omega
+  · obtain ⟨h1, h1'⟩ := assoc_map_id _ _ _ hb
+    obtain ⟨j, h2, _, _⟩ := assoc_zipIdx_base key nif fs 0 a x ha
+    have := List.mem_range.1 h1'
+    omega
+  · obtain ⟨j, h1, _, h3⟩ := assoc_zipIdx_base key nif fs 0 a x ha
+    obtain ⟨j', h1', _, h3'⟩ := assoc_zipIdx_base key nif fs 0 b x hb
+    have : j = j' := by omega
+    subst this
+    rw [h3] at h3'
+    injection h3'
 /-- everything `roundTripModule` returns, as equations on the components -/
 structure RTComponents (m o : ModuleM) : Prop where
   tables : o.tables = m.tables
@@ -417,7 +476,9 @@ structure RTComponents (m o : ModuleM) : Prop where
       no.elems = keepNames n.elems ∧ no.datas = keepNames n.datas) ∧
     -- ... and the function items of element segments; mode, table, item kind, element type and
     -- item count of every element segment are kept
-    (∀ (k : Nat) (e : ElemM), m.elems[k]? = some e → ∃ e' : ElemM, o.elems[k]? = some e' ∧ ElemKept ρ e e')
+    (∀ (k : Nat) (e : ElemM), m.elems[k]? = some e → ∃ e' : ElemM, o.elems[k]? = some e' ∧ ElemKept ρ e e') ∧
+    -- the map is injective: two functions of the input never share an index of the output
+    (∀ a b x : Nat, assoc ρ a = some x → assoc ρ b = some x → a = b)
 
 theorem roundTrip_components (m o : ModuleM) (h : roundTripModule m = some o) : RTComponents m o := by
   unfold roundTripModule at h
@@ -495,7 +556,7 @@ theorem roundTrip_components (m o : ModuleM) (h : roundTripModule m = some o) : 
             simp [hd]
           · simp
           · refine ⟨(List.range (importedCount m "f")).map (fun i => (i, i)) ++
-              oc.funcs.zipIdx.map (fun p => (p.1.id, importedCount m "f" + p.2)), ?_, ?_, ?_, ?_⟩
+              oc.funcs.zipIdx.map (fun p => (p.1.id, importedCount m "f" + p.2)), ?_, ?_, ?_, ?_, ?_⟩
             · intro k e hk hf
               obtain ⟨j, hj, hfj⟩ := mapM_some_get _ _ _ hex k e hk
               simp only [hf, if_true, Option.map_eq_some_iff] at hfj
@@ -518,6 +579,8 @@ theorem roundTrip_components (m o : ModuleM) (h : roundTripModule m = some o) : 
             · intro k e hk
               obtain ⟨j, hj, hf⟩ := mapM_some_get _ _ _ hel k e hk
               exact ⟨j, hj, rtElem_kept _ _ e j hf⟩
+            · intro a b x ha hb
+              exact funcMap_injective (fun f : OutFunc => f.id) _ oc.funcs a b x ha hb
         · cases h
 
 end Walrus
